@@ -11,6 +11,9 @@ import OFV.Proofs.C07Pauli
 import OFV.Proofs.C07Fermi
 import OFV.Proofs.C07Dual
 import OFV.Proofs.C07BCH
+import OFV.Proofs.C07Ops
+import OFV.Proofs.C07Hop
+import OFV.Proofs.C07DCp
 
 namespace OFV.C07
 open OFV OFV.Spec OFV.Spec.C07 OFV.Model OFV.Model.C07 OFV.Proofs.C07 OFV.Proofs.C07F
@@ -277,5 +280,142 @@ theorem bch_split_tree_leaves (n : Nat) (h : 1 ≤ n) : leaves (splitTree n 0 n)
   rw [splitTree_leaves n 0 n h (Nat.le_refl _), List.range_eq_range']
 
 example : splitTree 3 0 3 = .node (.leaf 0) (.node (.leaf 1) (.leaf 2)) := rfl
+
+/-! ### operator level: `commutator`, `anticommutator` as dictionaries -/
+
+/-- `commutator_def`: for every term functional `φ` (e.g. `φ τ = ⟨u|τ|s⟩`), the dictionary returned by
+`commutator(A, B)` (`result = A * B; result -= B * A`) denotes `⟦A·B⟧_φ - ⟦B·A⟧_φ`, where a product
+denotes the bilinear extension of the simplified term product; hypothesis: the exact regime of the
+in-place subtraction (no non-zero coefficient below `EQ_TOLERANCE` is pruned). -/
+theorem commutator_def (tol : Rat) (cls : Cls) (φ : List (Nat × Nat) → GQ) (A B : List (List (Nat × Nat) × GQ))
+    (h : ExactAdd tol (mulOp cls A B) ((mulOp cls B A).map fun e => (e.1, -e.2))) :
+    den φ (commutator tol cls A B) = bil (prodF cls φ) A B + -(bil (prodF cls φ) B A) :=
+  den_commutator tol cls φ A B h
+
+/-- `anticommutator_def` -/
+theorem anticommutator_def (tol : Rat) (cls : Cls) (φ : List (Nat × Nat) → GQ) (A B : List (List (Nat × Nat) × GQ))
+    (h : ExactAdd tol (mulOp cls A B) (mulOp cls B A)) :
+    den φ (anticommutator tol cls A B) = bil (prodF cls φ) A B + bil (prodF cls φ) B A :=
+  den_anticommutator tol cls φ A B h
+
+example : commutator Generated.eqTolerance .fermion [([(0, 1)], 1)] [([(0, 0)], 1)] =
+    [([(0, 1), (0, 0)], 1), ([(0, 0), (0, 1)], -1)] := by decide +kernel
+
+/-- operands whose terms commute pairwise (under `φ`) have a commutator that denotes 0 -/
+theorem commutator_zero_of_termwise (tol : Rat) (cls : Cls) (φ : List (Nat × Nat) → GQ)
+    (A B : List (List (Nat × Nat) × GQ))
+    (h : ExactAdd tol (mulOp cls A B) ((mulOp cls B A).map fun e => (e.1, -e.2)))
+    (hc : ∀ l ∈ A, ∀ r ∈ B, prodF cls φ l.1 r.1 = prodF cls φ r.1 l.1) :
+    den φ (commutator tol cls A B) = 0 :=
+  den_commutator_zero tol cls φ A B h hc
+
+/-- the shortcut and the generic path agree: when `trivially_commutes_dual_basis(a, b)` answers `True`,
+every matrix element `⟨u| commutator(c_a·a, c_b·b) |s⟩` of the Model's `commutator` is 0 -/
+theorem commutator_zero_of_trivially_commutes_dual (tol : Rat) (a b : List (Nat × Nat)) (ca cb : GQ)
+    (ha : DualTerm a) (hb : DualTerm b) (ht : triviallyCommutesDualBasis a b = true)
+    (h : ExactAdd tol (mulOp .fermion [(a, ca)] [(b, cb)])
+      ((mulOp .fermion [(b, cb)] [(a, ca)]).map fun e => (e.1, -e.2))) (s u : Nat) :
+    den (fun τ => GQ.ofInt (ampF τ s u)) (commutator tol .fermion [(a, ca)] [(b, cb)]) = 0 := by
+  apply den_commutator_zero tol .fermion _ _ _ h
+  intro l hl r hr
+  simp only [List.mem_singleton] at hl hr
+  subst hl; subst hr
+  have hz := (trivially_commutes_dual_basis_sound a b ha hb ht).2 s u
+  have : ampF (a ++ b) s u = ampF (b ++ a) s u := by omega
+  simp only [prodF, simplify, this]
+
+/-! ### `hermitian_conjugated` for Boson / Quad operators: the formal involution -/
+
+/-- BosonOperator branch.  The adjoint on ladder words is the formal involution `b_j ↔ b†_j`
+extended as an anti-homomorphism (`hcTermF`: reverse and flip; it maps generators to their adjoints
+and reverses products); the key stored by the code, `sorted(hcTermF t)`, denotes the same operator
+as `hcTermF t` on every monomial of the polynomial representation (stable sort; different modes
+commute).  (That the formal involution is the Hilbert-space adjoint is not formalised.) -/
+theorem hc_boson_term_sound (t t₁ t₂ : List (Nat × Nat)) (j : Nat) (e : Spec.Mono) :
+    Spec.actTermWith Spec.actB (sortF (hcTermF t)) e = Spec.actTermWith Spec.actB (hcTermF t) e ∧
+    hcTermF (t₁ ++ t₂) = hcTermF t₂ ++ hcTermF t₁ ∧
+    hcTermF [(j, 1)] = [(j, 0)] ∧ hcTermF [(j, 0)] = [(j, 1)] :=
+  ⟨hcBoson_key_sound t e, hcTermF_append t₁ t₂, rfl, rfl⟩
+
+/-- QuadOperator branch: `q_j`, `p_j` are self-adjoint, so the involution is word reversal; the stored
+key `sorted(reversed(t))` denotes the reversed word for every `ħ` and every monomial. -/
+theorem hc_quad_term_sound (hbar : GQ) (t t₁ t₂ : List (Nat × Nat)) (e : Spec.Mono) :
+    Spec.actTermWith (Spec.actQuad hbar) (sortF t.reverse) e = Spec.actTermWith (Spec.actQuad hbar) t.reverse e ∧
+    (t₁ ++ t₂).reverse = t₂.reverse ++ t₁.reverse :=
+  ⟨hcQuad_key_sound hbar t e, List.reverse_append⟩
+
+example : hcBoson [([(0, 1), (1, 0), (0, 0)], ⟨1, 2⟩)] = [([(0, 1), (0, 0), (1, 1)], ⟨1, -2⟩)] := by decide +kernel
+
+/-! ### the hopping shortcut of `double_commutator` -/
+
+/-- `hopping_shortcut_sound`, one shared mode.  For hopping operators `t (i^ k + k^ i)` and
+`w (k^ j + j^ k)` on index sets `{i, k}`, `{k, j}` (distinct `i, k, j`, any listing order of the sets):
+(1) the Model of `double_commutator(op1, op2, op3, indices2, indices3, True, True)` is
+`normal_ordered(commutator(op1, C))` with the shortcut operator `C = t w (i^ j) + (-t w) (j^ i)`;
+(2) `C` is the true commutator: `⟨u| commutator(op2, op3) |s⟩ = ⟨u| C |s⟩` for all Fock basis states
+— so the shortcut and the generic path `normal_ordered(commutator(op1, normal_ordered(commutator(op2, op3))))`
+feed the same operator to the common outer step.  (Exact regimes of the in-place additions assumed.) -/
+theorem hopping_shortcut_sound (tol : Rat) (a : List (List (Nat × Nat) × GQ)) (i k j : Nat) (t w : GQ)
+    (hik : i ≠ k) (hjk : j ≠ k) (hij : i ≠ j) (i2 i3 : List Nat)
+    (h2 : i2 = [i, k] ∨ i2 = [k, i]) (h3 : i3 = [k, j] ∨ i3 = [j, k]) (s u : Nat)
+    (he : ExactAdd tol (mulOp .fermion (hopOp i k t) (hopOp k j w))
+      ((mulOp .fermion (hopOp k j w) (hopOp i k t)).map fun e => (e.1, -e.2)))
+    (hc : ExactAdd tol (Model.mk .fermion [(i, 1), (j, 0)] (t * w)) (Model.mk .fermion [(j, 1), (i, 0)] (-(t * w)))) :
+    doubleCommutatorHopping tol a (hopOp i k t) (hopOp k j w) i2 i3 =
+      normalOrdered tol (commutator tol .fermion a (hopC23 tol i j (t * w))) ∧
+    den (phiF s u) (commutator tol .fermion (hopOp i k t) (hopOp k j w)) =
+      den (phiF s u) (hopC23 tol i j (t * w)) := by
+  refine ⟨doubleCommutatorHopping_shared tol a i k j t w hik hjk hij i2 i3 h2 h3, ?_⟩
+  rw [hop_commutator tol i k j t w hik hjk hij s u he, den_hopC23 tol _ i j (t * w) hc]
+
+/-- `hopping_shortcut_sound`, no shared mode: the shortcut returns the zero operator, and the
+commutator of the two hopping operators really has only zero matrix elements. -/
+theorem hopping_shortcut_disjoint (tol : Rat) (a : List (List (Nat × Nat) × GQ)) (i k j l : Nat) (t w : GQ)
+    (h1 : i ≠ j) (h2 : i ≠ l) (h3 : k ≠ j) (h4 : k ≠ l) (s u : Nat)
+    (he : ExactAdd tol (mulOp .fermion (hopOp i k t) (hopOp j l w))
+      ((mulOp .fermion (hopOp j l w) (hopOp i k t)).map fun e => (e.1, -e.2))) :
+    doubleCommutatorHopping tol a (hopOp i k t) (hopOp j l w) [i, k] [j, l] = [] ∧
+    den (phiF s u) (commutator tol .fermion (hopOp i k t) (hopOp j l w)) = 0 :=
+  ⟨doubleCommutatorHopping_disjoint tol a _ _ i k j l h1 h2 h3 h4, hop_commutator_disjoint tol i k j l t w h1 h2 h3 h4 s u he⟩
+
+/-- `hopping_shortcut_sound`, both modes shared (the case the shortcut answers with zero through the
+`ValueError` of the tuple unpacking): `[t (i^ k + k^ i), w (i^ k + k^ i)]` denotes 0 under every term
+functional. -/
+theorem hopping_shortcut_same (tol : Rat) (φ : List (Nat × Nat) → GQ) (i k : Nat) (t w : GQ)
+    (B : List (List (Nat × Nat) × GQ)) (hB : B = hopOp i k w ∨ B = hopOp k i w)
+    (he : ExactAdd tol (mulOp .fermion (hopOp i k t) B) ((mulOp .fermion B (hopOp i k t)).map fun e => (e.1, -e.2))) :
+    den φ (commutator tol .fermion (hopOp i k t) B) = 0 :=
+  hop_commutator_same tol φ i k t w B hB he
+
+example : hopOp 0 1 ⟨2, 0⟩ = [([(0, 1), (1, 0)], ⟨2, 0⟩), ([(1, 1), (0, 0)], ⟨2, 0⟩)] ∧
+    ([0, 1].filter [2, 1].contains) = [1] := by
+  refine ⟨rfl, by decide⟩
+
+/-! ### the diagonal-Coulomb commutator: one-body with one-body -/
+
+/-- `dc_commutator_sound`, PARTIAL.  Full statement (open): for all admissible operators,
+`⟨u| commutator_ordered_diagonal_coulomb_with_two_body_operator(A, B, prior) |s⟩ =
+ ⟨u| prior |s⟩ + Σ_{a ∈ A, b ∈ B} c_a c_b ⟨u| [a, b] |s⟩`.
+Proved here: the helper `_commutator_one_body_with_one_body` adds exactly `coef · [a, b]` to
+`prior_terms` for the index patterns with pairwise distinct modes — chain `i^ j, j^ l ↦ i^ l`, chain
+`i^ j, l^ i ↦ -(l^ j)`, and four distinct modes (nothing added, the terms commute).
+Not proved: coinciding modes (`i^ i`, double pairing `i^ j, j^ i ↦ n_i - n_j`), the one-body /
+two-body and two-body / two-body helpers (`dcOneTwo`, `dcTwoTwo`, `addThreeBody`), and the sum over
+the term pairs; these are covered exhaustively on 4 modes by the correspondence run and the oracle. -/
+theorem dc_one_body_one_body_sound_partial (i j k l : Nat) (coef : GQ) (prior : List (List (Nat × Nat) × GQ)) (s u : Nat) :
+    (i ≠ j → l ≠ j → i ≠ l →
+      den (phiF s u) (dcOneOne [(i, 1), (j, 0)] [(j, 1), (l, 0)] coef prior) =
+        den (phiF s u) prior + pairComm s u [(i, 1), (j, 0)] [(j, 1), (l, 0)] coef) ∧
+    (i ≠ j → l ≠ i → l ≠ j →
+      den (phiF s u) (dcOneOne [(i, 1), (j, 0)] [(l, 1), (i, 0)] coef prior) =
+        den (phiF s u) prior + pairComm s u [(i, 1), (j, 0)] [(l, 1), (i, 0)] coef) ∧
+    (i ≠ k → i ≠ l → j ≠ k → j ≠ l →
+      den (phiF s u) (dcOneOne [(i, 1), (j, 0)] [(k, 1), (l, 0)] coef prior) =
+        den (phiF s u) prior + pairComm s u [(i, 1), (j, 0)] [(k, 1), (l, 0)] coef) :=
+  ⟨fun h1 h2 h3 => dcOneOne_chain i j l coef prior h1 h2 h3 s u,
+   fun h1 h2 h3 => dcOneOne_chain' i j l coef prior h1 h2 h3 s u,
+   fun h1 h2 h3 h4 => dcOneOne_disjoint i j k l coef prior h1 h2 h3 h4 s u⟩
+
+example : dcOneOne [(2, 1), (1, 0)] [(1, 1), (0, 0)] ⟨3, 0⟩ [] = [([(2, 1), (0, 0)], ⟨0 + 3, 0 + 0⟩)] := by decide +kernel
 
 end OFV.C07
